@@ -309,7 +309,11 @@ func exercise(o *hlib.Out, rng *hlib.Rng, c cfg, mut bool, rounds, maxPt int) {
 			continue
 		}
 		// ---- C02: nothing but the genuine (ciphertext, ad) pair is accepted ----
-		muts := rng.Mutations(ct, 10)
+		nm, step := 10, 6
+		if lite { // systematic parts: the boundary mutations stay complete, the random ones are thinned
+			nm, step = 4, 23
+		}
+		muts := rng.Mutations(ct, nm)
 		// every field boundary: cut points and flips around prefix / nonce / body / tag edges
 		for _, pos := range []int{c.preLen, c.preLen + c.rndLen, len(ct) - c.tagLen, len(ct) - 1, 0} {
 			if pos >= 0 && pos < len(ct) {
@@ -319,7 +323,7 @@ func exercise(o *hlib.Out, rng *hlib.Rng, c cfg, mut bool, rounds, maxPt int) {
 				muts = append(muts, hlib.Mut{Kind: "cut-boundary", Data: append([]byte(nil), ct[:pos]...)})
 			}
 		}
-		for l := 0; l <= c.preLen+c.rndLen+c.tagLen+1 && l < 80; l += 1 + rng.Intn(6) {
+		for l := 0; l <= c.preLen+c.rndLen+c.tagLen+1 && l < 80; l += 1 + rng.Intn(step) {
 			muts = append(muts, hlib.Mut{Kind: "short-random", Data: rng.Bytes(l)})
 		}
 		if c.preLen == 5 {
